@@ -171,6 +171,98 @@ fn distributed(i: usize, seed: u64, thorough: bool) -> Out {
     Out { key, end: res.end, sig, sample, relations }
 }
 
+// ---- a faulty participant equivocating in the multi-party coin toss ---------------------------------
+
+/// Channel of the faulty party: runs the honest code, but towards the parties in `victims` the
+/// contribution to the multi-party coin toss (commitment and matching opening) is a different seed.
+struct EquivChan<'a> {
+    inner: &'a SimChan,
+    me: usize,
+    victims: Vec<usize>,
+    alt_seed: [u8; 32],
+    comm_too: bool,
+    sent: std::cell::RefCell<std::collections::HashMap<(usize, String), usize>>,
+    rewritten: std::cell::Cell<usize>,
+}
+
+impl polytune::channel::Channel for EquivChan<'_> {
+    type SendError = <SimChan as polytune::channel::Channel>::SendError;
+    type RecvError = <SimChan as polytune::channel::Channel>::RecvError;
+
+    async fn send_bytes_to(&self, party: usize, mut data: Vec<u8>, phase: &str) -> Result<(), Self::SendError> {
+        let k = {
+            let mut m = self.sent.borrow_mut();
+            let e = m.entry((party, phase.to_string())).or_insert(0);
+            *e += 1;
+            *e - 1
+        };
+        // occurrence 0 of each label belongs to the pairwise toss, occurrence 1 to the multi-party toss
+        if self.victims.contains(&party) && k == 1 && data.len() == 40 {
+            if phase == "RNG comm" && self.comm_too {
+                let mut v = [0u8; 34];
+                v[..32].copy_from_slice(&self.alt_seed);
+                v[32..].copy_from_slice(&(self.me as u16).to_be_bytes());
+                data[8..].copy_from_slice(blake3::hash(&v).as_bytes());
+                self.rewritten.set(self.rewritten.get() + 1);
+            } else if phase == "RNG ver" {
+                data[8..].copy_from_slice(&self.alt_seed);
+                self.rewritten.set(self.rewritten.get() + 1);
+            }
+        }
+        self.inner.send_bytes_to(party, data, phase).await
+    }
+
+    async fn recv_bytes_from(&self, party: usize, phase: &str) -> Result<Vec<u8>, Self::RecvError> {
+        self.inner.recv_bytes_from(party, phase).await
+    }
+}
+
+fn equivocation(i: usize, seed: u64) -> Out {
+    let mut rng = ChaCha8Rng::seed_from_u64(seed ^ 0xe9c10 ^ (i as u64).wrapping_mul(0x9e3779b97f4a7c15));
+    let n = 3 + i % 3;
+    let c = rng.random_range(0..n);
+    let honest: Vec<usize> = (0..n).filter(|p| *p != c).collect();
+    let n_vic = 1 + (i / 3) % (honest.len() - 1);
+    let mut victims = honest.clone();
+    while victims.len() > n_vic {
+        victims.remove(rng.random_range(0..victims.len()));
+    }
+    let comm_too = i % 4 != 3;
+    let alt_seed: [u8; 32] = rng.random();
+    let (net, chans) = SimChan::new_set(n, None);
+    let sched = if i % 2 == 0 { SchedKind::RoundRobin } else { SchedKind::Random };
+    let ech = EquivChan { inner: &chans[c], me: c, victims: victims.clone(), alt_seed, comm_too, sent: Default::default(), rewritten: Default::default() };
+    let res = {
+        let mut futs: Vec<PartyFut<'_, Result<Vec<u32>, String>>> = vec![];
+        for p in 0..n {
+            let ch = &chans[p];
+            let ech = &ech;
+            futs.push(Box::pin(async move {
+                let pre = if p == c { Pre::setup(ech, p, n, 1).await? } else { Pre::setup(ch, p, n, 1).await? };
+                Ok(pre.multi_words(64))
+            }));
+        }
+        sim::run(&net, futs, &SimCfg { sched, seed: seed ^ i as u64, max_steps: 10_000_000 })
+    };
+    let mut sig = None;
+    let done: Vec<(usize, &Vec<u32>)> = honest.iter().filter_map(|p| if let Outcome::Done(Ok(w)) = &res.outcomes[*p] { Some((*p, w)) } else { None }).collect();
+    for w in done.windows(2) {
+        if w[0].1 != w[1].1 {
+            sig = Some(format!("two honest parties completed the multi-party coin toss with different coins ({})", if comm_too { "faulty party equivocated on commitment and opening" } else { "faulty party equivocated on the opening" }));
+        }
+    }
+    for p in &honest {
+        if let Outcome::Panic(_, l) = &res.outcomes[*p] {
+            sig = Some(format!("honest party panicked at {l} during the coin toss with an equivocating party"));
+        }
+    }
+    let d: Vec<String> = res.outcomes.iter().map(|o| match o { Outcome::Done(Ok(_)) => "Ok".into(), Outcome::Done(Err(e)) => format!("Err:{}", crate::props::err_class(e)), Outcome::Panic(_, l) => format!("Panic@{l}"), _ => "Unfinished".into() }).collect();
+    let delivered = ech.rewritten.get();
+    let sample = json!({"provider": "distributed, one faulty party equivocates in the multi-party coin toss", "n": n, "faulty": c, "different_seed_towards": victims, "commitment_rewritten_too": comm_too, "messages_rewritten": delivered, "outcomes": d, "honest_completed": done.len()});
+    let end = if delivered == 0 { RunEnd::HarnessError("equivocation case: no coin-toss message was rewritten".into()) } else { res.end };
+    Out { key: format!("equivocating coin toss n={n} victims={n_vic} comm_too={comm_too}"), end, sig, sample, relations: done.len().saturating_sub(1) as u64 }
+}
+
 // ---- trusted dealer -------------------------------------------------------------------------------
 
 fn share_schema() -> Sch {
@@ -320,15 +412,16 @@ fn dealer_mpc(i: usize, seed: u64) -> Out {
 pub fn run(tier: &str, seed: u64) -> i32 {
     let thorough = tier == "thorough";
     let mut rep = Report::new("C10", tier, seed, "exploration");
-    rep.rule = "distributed preprocessing through the wrappers (coin tosses, fashare, beaver_aand as gen_auth_bits calls them) for n=2..5 and batch lengths {1,2,7,63,64,65,127,128,129} (n<=3), {1000,3099,3100(,5000)} and 280000 (n=2: bucket sizes 5, 4 and 3), left/right shares = public random linear combinations of fresh shares incl. all-zero and equal left/right; trusted dealer: a harness client speaks the dealer protocol directly (n=2..5) and mpc with the dealer is compared with the clear-text evaluator. Oracle: for every share and ordered pair (i,j) MAC_i[j] == key_j[i] ^ (bit_i & delta_j); XOR z == (XOR a) & (XOR b); multi-party coins equal at all parties, pairwise coins equal within and different across pairs. distinct = (provider, n, batch length class); every case is non-trivial".into();
+    rep.rule = "distributed preprocessing through the wrappers (coin tosses, fashare, beaver_aand as gen_auth_bits calls them) for n=2..5 and batch lengths {1,2,7,63,64,65,127,128,129} (n<=3), {1000,3099,3100(,5000)} and 280000 (n=2: bucket sizes 5, 4 and 3), left/right shares = public random linear combinations of fresh shares incl. all-zero and equal left/right; trusted dealer: a harness client speaks the dealer protocol directly (n=2..5) and mpc with the dealer is compared with the clear-text evaluator. Oracle: for every share and ordered pair (i,j) MAC_i[j] == key_j[i] ^ (bit_i & delta_j); XOR z == (XOR a) & (XOR b); multi-party coins equal at all parties, pairwise coins equal within and different across pairs; with one faulty party (n=3..5) that gives a different coin-toss contribution (commitment and matching opening, or opening only) to some honest parties, all honest parties that complete the coin toss hold identical coins. distinct = (provider, n, batch length class); every case is non-trivial".into();
     rep.assumptions = vec!["bucket size 3 (>= 280000 triples per batch) is exercised once for n=2 in quick, and for n=2 and n=3 in thorough".into()];
     let n_dist = if thorough { 960 } else { 320 };
     let n_dd = if thorough { 640 } else { 192 };
     let n_dm = if thorough { 480 } else { 120 };
     let huge = thorough && std::env::var("PV_C10_HUGE").is_ok();
-    let total = n_dist + n_dd + n_dm;
+    let n_eq = if thorough { 1200 } else { 240 };
+    let total = n_dist + n_dd + n_dm + n_eq;
     let outs = parallel_for(total, threads(), |i| {
-        if i < n_dist { distributed(i, seed, thorough) } else if i < n_dist + n_dd { dealer_direct(i - n_dist, seed) } else { dealer_mpc(i - n_dist - n_dd, seed) }
+        if i < n_dist { distributed(i, seed, thorough) } else if i < n_dist + n_dd { dealer_direct(i - n_dist, seed) } else if i < n_dist + n_dd + n_dm { dealer_mpc(i - n_dist - n_dd, seed) } else { equivocation(i - n_dist - n_dd - n_dm, seed) }
     });
     let _ = huge;
     for o in outs {
